@@ -130,7 +130,11 @@ func VerifHarness_C01_step() {
 		}
 		r = verifNewSession(false, bs)
 	} else {
-		r = verifNewSession(ndBool("initiator"), verifPickBeginString())
+		bs := BeginStringFIX41
+		if ndBool("fixt") {
+			bs = BeginStringFIXT11
+		}
+		r = verifNewSession(ndBool("initiator"), bs)
 	}
 	if ndBool("chunked") {
 		r.s.ResendRequestChunkSize = 2
@@ -166,7 +170,9 @@ func VerifHarness_C01_hist() {
 	if ndBool("chunked") {
 		r.s.ResendRequestChunkSize = 1
 	}
-	T := ndInt("T", 1, 20)
+	// the starting number is one symbolic value of a narrow range: the event order carries the case analysis here,
+	// C01_step keeps the numbers fully symbolic
+	T := ndInt("T", 20, 22)
 	r.setCounters(T, 1)
 	r.verifLoggedOnState(stInSession, T)
 	K := verifBound(2, 3)
@@ -175,7 +181,7 @@ func VerifHarness_C01_hist() {
 			break
 		}
 		before := r.st.NextTargetMsgSeqNum()
-		m := r.verifEvent("ev", before, 26)
+		m := r.verifEvent("ev", before, 28)
 		r.s.fixMsgIn(r.s, m)
 		r.pump()
 		verifAssert(r.st.NextTargetMsgSeqNum() >= before, "hist-expected-number-never-moves-backwards")
